@@ -482,7 +482,10 @@ impl<'source> CodeGenerator<'source> {
                 for (name, alias) in from_import.names.iter().rev() {
                     self.compile_assignment(alias.as_ref().unwrap_or(name));
                 }
+                // the capture only discards output; what it leaves on the
+                // stack is not used
                 self.add(Instruction::EndCapture);
+                self.add(Instruction::DiscardTop);
             }
             #[cfg(feature = "multi_template")]
             ast::Stmt::Extends(extends) => {
